@@ -501,32 +501,3 @@ End Keys.
 (** the remote authorizer and the contextualizer look the key up only after the
     templates rendered; the model above returns the fresh evaluation's error in
     that case, which is what the code does (renderTemplates fails first). *)
-
-(* ------------------------------------------------------------------ client credentials *)
-
-Record cc_cfg := { cc_url : string; cc_id : string; cc_secret : string; cc_scopes : list string;
-                   cc_ttl : option Z }.
-
-Definition cc_fields (c : cc_cfg) : list fld :=
-  [FV (cc_id c); FV (cc_secret c); FV (cc_url c); FV (join "" (cc_scopes c))].
-
-Definition cc_enabled (c : cc_cfg) : bool :=
-  match cc_ttl c with None => true | Some t => (t >? 0)%Z end.
-
-(* ------------------------------------------------------------------ jwt finalizer *)
-
-(** [jf_claims]: text of the claims template; [jf_gen]: generation of the key
-    behind [jf_kid] (a reload that keeps the key id increments it) *)
-Record jf_cfg := { jf_kid : string; jf_alg : string; jf_iss : string; jf_claims : option string;
-                   jf_ttl : Z }.
-
-Section FinKeys.
-  Variable H : string -> string.
-
-  Definition signer_fields (c : jf_cfg) : list fld := [FV (jf_kid c); FV (jf_alg c); FV (jf_iss c)].
-
-  Definition jf_fields (c : jf_cfg) (sub_json outputs_json : string) : list fld :=
-    [FX (H (cat (signer_fields c)));
-     match jf_claims c with Some t => FX (H t) | None => FV "" end;
-     FX (le64 (jf_ttl c)); FX (H sub_json); FV outputs_json].
-End FinKeys.
